@@ -197,12 +197,16 @@ func vfGenC09(rt *rapid.T) vfC09Case {
 		}
 		if subtle && cs.Cfg.Directory && i > 0 && rapid.Bool().Draw(rt, "climb") {
 			// one plain name, the same odd element one to three times, then a name that exists above the destination
-			odd := rapid.SampledFrom(vfSubtleElems[7:]).Draw(rt, "odd")
+			odd := rapid.SampledFrom(append([]string{"..", ".."}, vfSubtleElems[7:]...)).Draw(rt, "odd")
 			rel = []string{rapid.SampledFrom([]string{"top", "a", "x"}).Draw(rt, "climb_first")}
 			for m := rapid.IntRange(1, 3).Draw(rt, "climb_n"); m > 0; m-- {
 				rel = append(rel, odd)
 			}
-			rel = append(rel, rapid.SampledFrom([]string{"canary", "x", "a", "sib", "l1"}).Draw(rt, "climb_target"))
+			// sometimes through further directories that do not exist yet (what is made for the intermediate levels counts too)
+			for m := rapid.IntRange(0, 2).Draw(rt, "climb_mid"); m > 0; m-- {
+				rel = append(rel, rapid.SampledFrom([]string{"planted", "sub", "newdir"}).Draw(rt, "climb_midname"))
+			}
+			rel = append(rel, rapid.SampledFrom([]string{"canary", "x", "a", "sib", "l1", "f.txt"}).Draw(rt, "climb_target"))
 		}
 		if rapid.IntRange(0, 30).Draw(rt, "verylong") == 0 {
 			rel[len(rel)-1] = strings.Repeat("L", 4096)
